@@ -238,8 +238,9 @@ pub fn campaign(run: &mut PropRun, key: &str, workers: usize, runs: u64) {
             .env("CV_FUZZ_SUITE", key)
             .env("VERIF_DIR", &verif_dir)
             .env("ASAN_OPTIONS", "detect_leaks=0")
-            .stdout(std::process::Stdio::piped())
-            .stderr(std::process::Stdio::piped())
+            // to files, not pipes: a full pipe would stall every worker but the one being read
+            .stdout(std::fs::File::create(format!("{dir}/stdout.log")).map(std::process::Stdio::from).unwrap_or_else(|_| std::process::Stdio::null()))
+            .stderr(std::fs::File::create(format!("{dir}/stderr.log")).map(std::process::Stdio::from).unwrap_or_else(|_| std::process::Stdio::null()))
             .spawn();
         children.push((dir, child));
     }
@@ -247,20 +248,20 @@ pub fn campaign(run: &mut PropRun, key: &str, workers: usize, runs: u64) {
     let (mut cov, mut ft, mut corp) = (0u64, 0u64, 0u64);
     let mut outcomes: Vec<String> = vec![];
     for (dir, child) in children {
-        let out = match child.and_then(|c| c.wait_with_output()) {
+        let status = match child.and_then(|mut c| c.wait()) {
             Ok(o) => o,
             Err(e) => {
                 outcomes.push(format!("worker could not run: {e}"));
                 continue;
             }
         };
-        let so = String::from_utf8_lossy(&out.stdout).to_string();
-        let se = String::from_utf8_lossy(&out.stderr).to_string();
+        let so = String::from_utf8_lossy(&std::fs::read(format!("{dir}/stdout.log")).unwrap_or_default()).to_string();
+        let se = String::from_utf8_lossy(&std::fs::read(format!("{dir}/stderr.log")).unwrap_or_default()).to_string();
         total_runs += stat(&se, "stat::number_of_executed_units:");
         cov = cov.max(done_field(&se, "cov:"));
         ft = ft.max(done_field(&se, "ft:"));
         corp = corp.max(done_field(&se, "corp:"));
-        if out.status.success() {
+        if status.success() {
             outcomes.push("completed".into());
             continue;
         }
